@@ -4,7 +4,8 @@
 // fcppt::monad::{bind,return_} on either.
 // Tags and payloads are symbolic, continuations are uninterpreted functions wrapped in logging functors (see
 // C04_common.hpp), containers of eithers / of functions have length n <= 3 (param), either::loop is run against an
-// arbitrary result stream (uninterpreted in the step number) that fails within the first 4 steps.
+// arbitrary result stream (uninterpreted in the step number) that fails within the first 4 (thorough: 7) steps;
+// thorough tier: containers of length 4 / 5.
 // Outside the claim: try_call when the function throws (catch handlers are not executed by the engine: a throw ends
 // the path), either::to_exception (throws), either::output (iostream), payloads with non-trivial copy/move (C05).
 //@property C04
@@ -273,7 +274,7 @@ template <typename F, typename S>
 void sequence_vec()
 {
   unsigned const n{static_cast<unsigned>(verif_param("n"))};
-  meith<F, S> ms[3]{msym<F, S>("t0", "f0", "s0"), msym<F, S>("t1", "f1", "s1"), msym<F, S>("t2", "f2", "s2")};
+  meith<F, S> ms[4]{msym<F, S>("t0", "f0", "s0"), msym<F, S>("t1", "f1", "s1"), msym<F, S>("t2", "f2", "s2"), msym<F, S>("t3", "f3", "s3")};
   std::vector<ei::object<F, S>> src;
   for (unsigned i = 0; i < n; ++i) src.push_back(real(ms[i]));
   sequence_check<F, S>(src, ms, n);
@@ -334,12 +335,14 @@ void first_success()
 }
 
 // ---------------------------------------------------------------- loop: an arbitrary stream of results, failing within 4 steps
-template <typename F, typename S>
+template <typename F, typename S, unsigned Steps = 4>
 void loop()
 {
   log_reset();
   using T = thunk<F, S>; // reused as "result of step j"
-  verif_assume(!T::model(0).succ || !T::model(1).succ || !T::model(2).succ || !T::model(3).succ);
+  bool fails{false};
+  for (unsigned j = 0; j < Steps; ++j) fails = fails || !T::model(j).succ;
+  verif_assume(fails);
   unsigned step{0};
   F const r{ei::loop(
       [&step] {
@@ -378,9 +381,13 @@ H(h_ei_elim_A, (eliminators<short, int, uc>())) H(h_ei_elim_B, (eliminators<uc, 
 //@harness h_ei_elim_{T} for T in A,B,C tier=quick
 H(h_ei_seq_vec_A, (sequence_vec<short, int>())) H(h_ei_seq_vec_B, (sequence_vec<uc, short>())) H(h_ei_seq_vec_C, (sequence_vec<int, uc>()))
 //@harness h_ei_seq_vec_{T} for T in A,B,C param n=0..3 tier=quick
+//@harness h_ei_seq_vec_{T} for T in A,B,C param n=4 tier=thorough
 H(h_ei_seq_arr3_A, (sequence_arr3<short, int>()))
 //@harness h_ei_seq_arr3_A tier=quick
 H(h_ei_first_success_A, (first_success<short, int>())) H(h_ei_first_success_B, (first_success<uc, short>())) H(h_ei_first_success_C, (first_success<int, uc>()))
 //@harness h_ei_first_success_{T} for T in A,B,C param n=0..3 tier=quick
+//@harness h_ei_first_success_{T} for T in A,B,C param n=4,5 tier=thorough
 H(h_ei_loop_A, (loop<short, int>())) H(h_ei_loop_B, (loop<uc, short>())) H(h_ei_loop_C, (loop<int, uc>()))
 //@harness h_ei_loop_{T} for T in A,B,C tier=quick
+H(h_ei_loop7_A, (loop<short, int, 7>()))
+//@harness h_ei_loop7_A tier=thorough
